@@ -457,6 +457,83 @@ Proof. intros H. rewrite (cfg_good_eq c H). apply model_is_spec_std. Qed.
 Lemma oracle_holds c rules cat t : cfg_goodb c = true -> prop_c15_b rules cat t (category_filter c rules cat t) = true.
 Proof. intros H. unfold prop_c15_b. rewrite (model_is_spec c _ _ _ H). apply Bool.eqb_reflx. Qed.
 
+(* ------------------------------------------------------------------ one object, a history of messages *)
+Lemma obj_run_map cfg st qs :
+  obj_run cfg st qs = map (fun q => filter_rules cfg st (q_cat q) (q_type q)) qs.
+Proof. induction qs as [|q r IH]; cbn; [reflexivity|]. rewrite IH. reflexivity. Qed.
+
+Lemma object_answers_map cfg rules qs :
+  object_answers cfg rules qs = map (fun q => category_filter cfg rules (q_cat q) (q_type q)) qs.
+Proof. unfold object_answers, obj_new. rewrite obj_run_map. reflexivity. Qed.
+
+(* the answers to a history are, message by message, the specified verdicts: no address in sight *)
+Lemma object_answers_spec c rules qs : cfg_goodb c = true -> object_answers c rules qs = spec_answers rules qs.
+Proof.
+  intros H. rewrite object_answers_map. unfold spec_answers. apply map_ext. intros q. apply model_is_spec, H.
+Qed.
+
+(* histories compose: nothing is carried over from the messages answered before *)
+Lemma object_answers_app cfg rules h1 h2 :
+  object_answers cfg rules (h1 ++ h2) = object_answers cfg rules h1 ++ object_answers cfg rules h2.
+Proof. rewrite !object_answers_map. apply map_app. Qed.
+
+Lemma object_answers_length cfg rules qs : length (object_answers cfg rules qs) = length qs.
+Proof. rewrite object_answers_map. apply map_length. Qed.
+
+(* the answer to the k-th message of a history is the verdict of a fresh object asked that message alone *)
+Lemma object_answer_nth c rules qs k q d : cfg_goodb c = true -> nth_error qs k = Some q ->
+  nth k (object_answers c rules qs) d = spec_verdict rules (q_cat q) (q_type q).
+Proof.
+  intros H Hk. rewrite (object_answers_spec c _ _ H). unfold spec_answers.
+  apply nth_error_split in Hk as (l1 & l2 & -> & <-).
+  rewrite map_app. rewrite app_nth2; rewrite map_length; [|lia]. rewrite Nat.sub_diag. reflexivity.
+Qed.
+
+(* whatever was asked before, and wherever the names of the earlier messages were stored *)
+Lemma object_answer_history_irrelevant c rules h h' q d :
+  last (object_answers c rules (h ++ [q])) d = last (object_answers c rules (h' ++ [q])) d.
+Proof.
+  rewrite !object_answers_map, !map_app. cbn [map]. rewrite !last_last. reflexivity.
+Qed.
+
+(* two messages with the same name text and type get the same answer, at whatever addresses the names live *)
+Lemma object_answer_address_irrelevant cfg rules h q q' :
+  q_cat q = q_cat q' -> q_type q = q_type q' ->
+  object_answers cfg rules (h ++ [q]) = object_answers cfg rules (h ++ [q']).
+Proof. intros E1 E2. rewrite !object_answers_map, !map_app. cbn. rewrite E1, E2. reflexivity. Qed.
+
+(* the adversarial case spelled out: two consecutive messages whose names sit at the SAME address each get the
+   verdict of their own name *)
+Lemma object_same_address_own_verdicts c rules h q1 q2 : cfg_goodb c = true -> q_addr q1 = q_addr q2 ->
+  object_answers c rules (h ++ [q1; q2]) =
+  object_answers c rules h ++ [spec_verdict rules (q_cat q1) (q_type q1); spec_verdict rules (q_cat q2) (q_type q2)].
+Proof.
+  intros H _. rewrite object_answers_app. f_equal. rewrite (object_answers_spec c _ _ H). reflexivity.
+Qed.
+
+Lemma list_eqb_refl {A} (eq : A -> A -> bool) : (forall x, eq x x = true) -> forall a, list_eqb eq a a = true.
+Proof. intros R. induction a as [|x a IH]; cbn; [reflexivity|]. rewrite R, IH. reflexivity. Qed.
+
+Lemma seq_oracle_iff rules qs vs : prop_c15_seq_b rules qs vs = true <-> vs = spec_answers rules qs.
+Proof.
+  unfold prop_c15_seq_b. split.
+  - apply list_eqb_eq. intros x y. apply Bool.eqb_prop.
+  - intros ->. apply list_eqb_refl. intros []; reflexivity.
+Qed.
+
+(* the history oracle is the single-message oracle on every message (and the lengths agree) *)
+Lemma seq_oracle_pointwise rules qs vs :
+  prop_c15_seq_b rules qs vs = true <-> Forall2 (fun q v => prop_c15_b rules (q_cat q) (q_type q) v = true) qs vs.
+Proof.
+  rewrite seq_oracle_iff. unfold spec_answers, prop_c15_b. split.
+  - intros ->. induction qs as [|q r IH]; cbn; constructor; [apply Bool.eqb_reflx|exact IH].
+  - intros F. induction F as [|q v r vs' Hv _ IH]; cbn; [reflexivity|].
+    apply Bool.eqb_prop in Hv. rewrite Hv, IH. reflexivity.
+Qed.
+
+Lemma seq_oracle_holds c rules qs : cfg_goodb c = true -> prop_c15_seq_b rules qs (object_answers c rules qs) = true.
+Proof. intros H. apply seq_oracle_iff. apply object_answers_spec, H. Qed.
+
 (* ------------------------------------------------------------------ rule lists and separators *)
 Lemma parse_lines_app cfg a b : parse_lines cfg (a ++ b) = parse_lines cfg a ++ parse_lines cfg b.
 Proof. apply flat_map_app. Qed.
